@@ -279,16 +279,18 @@ func outOK(e expT, out []byte) string {
 // ---------------------------------------------------------------------------------------------
 
 type caseIn struct {
-	K       string `json:"k"` // listener | adapter | udp | build
-	S       string `json:"s"`
-	Cuts    []int  `json:"cuts"`
-	Auth    bool   `json:"auth"`
-	User    string `json:"user"`
-	Pass    string `json:"pass"`
-	D       string `json:"d"`
-	Host    string `json:"host"`
-	Port    int    `json:"port"`
-	Payload string `json:"payload"`
+	K       string  `json:"k"` // listener | adapter | udp | build
+	S       string  `json:"s"`
+	Cuts    []int   `json:"cuts"`
+	Auth    bool    `json:"auth"`
+	User    string  `json:"user"`
+	Pass    string  `json:"pass"`
+	D       string  `json:"d"`
+	Host    string  `json:"host"`
+	Port    int     `json:"port"`
+	Payload string  `json:"payload"`
+	Ops     []seqOp `json:"ops"`    // seq: operations on ONE relay, results retained until the end
+	Rounds  int     `json:"rounds"` // conc: rounds of len(Ops) goroutines building at the same time on ONE relay
 }
 
 type canonT struct {
@@ -313,7 +315,9 @@ type caseOut struct {
 	Canon2   canonT          `json:"canon2"`
 	Port2    int             `json:"port2"`
 	Payload2 string          `json:"payload2"`
-	Tbl      [][]interface{} `json:"tbl"` // net.ParseIP oracle: [hex text, hex 16-byte ip | null]
+	Ops      []seqRes        `json:"ops,omitempty"`
+	Aliased  int             `json:"payload_aliases_input"` // parse results whose payload is a sub-slice of the input buffer
+	Tbl      [][]interface{} `json:"tbl"`                   // net.ParseIP oracle: [hex text, hex 16-byte ip | null]
 	PropOK   bool            `json:"prop_ok"`
 	PropKey  string          `json:"prop_key,omitempty"`
 	PropMsg  string          `json:"prop_msg,omitempty"`
@@ -450,13 +454,16 @@ func checkSession(o *caseOut, kind string, e expT, r lres) {
 	}
 }
 
+// one relay for all single-operation cases of a run, like the long-lived relay of the real client
+var sharedRelay = socks5.VerifRelay()
+
 func udpParse(d []byte) (ok bool, host string, port int, payload []byte, pnc string) {
 	defer func() {
 		if p := recover(); p != nil {
 			pnc = fmt.Sprint(p)
 		}
 	}()
-	h, p, pl, err := socks5.VerifParseUDPHeader(append([]byte(nil), d...))
+	h, p, pl, err := sharedRelay.VerifParse(append([]byte(nil), d...))
 	if err != nil {
 		return false, "", 0, nil, ""
 	}
@@ -469,7 +476,7 @@ func udpBuild(host string, port int, payload []byte) (b []byte, pnc string) {
 			pnc = fmt.Sprint(p)
 		}
 	}()
-	return socks5.VerifBuildUDPHeader(host, port, append([]byte(nil), payload...)), ""
+	return append([]byte(nil), sharedRelay.VerifBuild(host, port, append([]byte(nil), payload...))...), ""
 }
 
 func refUDP(d []byte) (ok bool, atyp byte, addr []byte, port int, payload []byte) {
@@ -594,6 +601,10 @@ func runCase(raw json.RawMessage) interface{} {
 		if rok {
 			o.addTbl(hostText(ratyp, raddr))
 		}
+	case "seq":
+		runSeq(&c, o)
+	case "conc":
+		runConc(&c, o)
 	default:
 		panic("bad case kind " + c.K)
 	}
